@@ -568,6 +568,20 @@ def oracle_c20(ent):
     return None
 
 
+def oracle_c09_reaching(ent, d):
+    """the same rule on the reads as they REACH the adapter stage (after -u, --nextseq-trim, -q): what an adapter sees there can
+    differ in kind from the raw read (an adapter covering the whole remaining read, say)"""
+    cfg = ent["cfg"]
+    if not cfg.adapters or not (cfg.cuts or cfg.nextseq is not None or cfg.qcut is not None) or cfg.revcomp:
+        return None
+    pre = S.Cfg(fasta=cfg.fasta, qbase=cfg.qbase, cuts=cfg.cuts, nextseq=cfg.nextseq, qcut=cfg.qcut)
+    r = S.run_impl(pre, ent["reads"], d)
+    if r["exit"] != 0 or len(r["files"].get(0, [])) != len(ent["reads"]):
+        return None
+    why = oracle_c09({"cfg": cfg, "reads": r["files"][0]})
+    return None if why is None else "after the steps in front of the adapters: " + why
+
+
 def oracle_c09(ent):
     """API level, on the implementation: candidates = match_to of every single adapter; the documented rule picks one;
     rounds continue on the trimmed read; the cutter must agree."""
@@ -938,9 +952,9 @@ def run(ctx, pid):
                 elif pid == "C04":
                     why = oracle_c04(ent, d)
                 elif pid == "C09":
-                    why = oracle_c09_linked_required(ent) or oracle_c09(ent)
+                    why = oracle_c09_linked_required(ent) or oracle_c09(ent) or oracle_c09_reaching(ent, d)
                 elif pid == "C10":
-                    why = oracle_c10(ent, d) if rng.random() < (0.5 if ctx.quick else 0.7) else None
+                    why = oracle_c10(ent, d) if rng.random() < (0.85 if ctx.quick else 0.9) else None
                 elif pid == "C11":
                     why = oracle_c11(ent, d)
                 elif pid == "C15":
@@ -966,7 +980,7 @@ def run(ctx, pid):
         cut_order_part(ctx, dist)
     if pid == "C15":
         relative_demux_part(ctx, dist)
-    if pid in ("C03", "C04", "C09", "C10", "C11", "C15", "C16"):
+    if pid in ("C03", "C04", "C09", "C10", "C11", "C15", "C16", "C20"):
         from . import pairprops
 
         pres = pairprops.paired_part(ctx, pid, max(60, n // 3), dist)
@@ -1346,7 +1360,7 @@ def replay(doc, pid):
         return 1
     with S.Scratch() as d:
         why = {"C03": lambda: oracle_c03(ent) or oracle_c03_actions(ent, d), "C04": lambda: oracle_c04(ent, d), "C10": lambda: oracle_c10(ent, d),
-               "C09": lambda: oracle_c09(ent), "C11": lambda: oracle_c11(ent, d), "C15": lambda: oracle_c15(ent, d), "C16": lambda: oracle_c16(ent),
+               "C09": lambda: oracle_c09(ent) or oracle_c09_reaching(ent, d), "C11": lambda: oracle_c11(ent, d), "C15": lambda: oracle_c15(ent, d), "C16": lambda: oracle_c16(ent),
                "C17": lambda: oracle_c17(ent), "C20": lambda: oracle_c20(ent)}[pid]()
     print("argv", ent["impl"]["argv"][5:-1])
     print("oracle:", why or "property holds on this input", "| model/impl differences:", ent.get("diffs"))
